@@ -233,8 +233,9 @@ def o22(ctx):
     if missing:
         raise Unsupported(f"writer templates for roles {sorted(missing)} not found in Starfile.write", fn)
     # queue discipline of the token list: reversed once, consumed from the end
-    rev = [n for n in ast.walk(ft) if isinstance(n, ast.Return) and isinstance(n.value, ast.Subscript)
-           and ast.unparse(n.value.slice) == "::-1"]
+    rev = [n for n in ast.walk(ft) if isinstance(n, ast.Subscript) and ast.unparse(n.slice) == "::-1"] + \
+          [n for n in ast.walk(ft) if isinstance(n, ast.Call) and ((isinstance(n.func, ast.Attribute) and n.func.attr == "reverse")
+                                                                    or (isinstance(n.func, ast.Name) and n.func.id == "reversed"))]
     mc, fc = ctx.prog.func("starfileio.Token.consume")
     pops = [n for n in ast.walk(fc) if isinstance(n, ast.Call) and isinstance(n.func, ast.Attribute) and n.func.attr == "pop"
             and not n.args]
